@@ -576,3 +576,4 @@ PROP = C16()
 
 PROP.rule += (" Strata added while closing seeded changes (DESIGN section 10): "
               'edits between writes incl. table replaced keeping the last depth, duplicated-then-deleted items, renames.')
+PROP.rule += ' Round 8: curve values None, moved curve objects.'
